@@ -45,7 +45,7 @@ Call(e) ==
                 \/ (orig # DynVal /\ ~Applies(call, orig.ty))
                 \/ (orig.st = "null" /\ call.c \notin {"NotNull", "Null"})   \* bounds on a known null: not judged
       contra == ~misuse /\ orig # DynVal /\ Contradictory(orig, r, call)
-      rr == IF orig.st = "unk" /\ orig # DynVal /\ ~misuse /\ ~contra THEN Meet(r, call) ELSE r
+      rr == IF orig # DynVal /\ ~misuse /\ ~contra THEN NextRange(orig, r, call) ELSE r
   IN
   /\ (status # "open" => PrintT(<<"INCON", l, "CallAfterRejection">>))
   /\ LET fails ==
